@@ -1,4 +1,6 @@
 # per-property configuration of bin/check
+DOC_ASSUME = ["the reader event stream recorded by an independent pass is what into_struct/extend_struct consume (quick_xml::Reader is the input of the model)",
+              "character classes are modelled exactly on the alphabet Sigma = ASCII + U+00A0..U+052F (compared exhaustively with std on every run); the generators draw names from Sigma only"]
 PROPS = {
     "C15": {
         "corr": ["C15Corr"],
@@ -7,11 +9,46 @@ PROPS = {
         "explanation": "theorems C15_* over all lists of any item type with decidable equality; correspondence model-vs-implementation exhaustive over a small alphabet plus random",
         "assumptions": ["Rust PartialEq on the item type is a decidable equality (u8, String)"],
     },
-    "C03": {
-        "corr": ["CoreCorr"],
-        "projection": "events (DOM -> reader events), tree (full internal Element state after parse/extend), dom (document-level presentation of the model)",
+    "C01": {
+        "corr": ["CoreCorr", "CharCorr"],
+        "projection": "events, tree (full internal state), dom, bytes (hash of the rendering)",
         "level": "proof",
-        "explanation": "inference exactness: theorems over all documents; correspondence on exhaustive small documents and random sequences; oracle = Spec.infer applied to the implementation's tree",
-        "assumptions": ["the reader event stream recorded by an independent pass is what into_struct/extend_struct consume (quick_xml::Reader is the input of the model)"],
+        "explanation": "oracle on the implementation's output: admits_b: each source document checked against the struct definitions parsed back from the implementation's rendering",
+        "assumptions": DOC_ASSUME,
+    },
+    "C03": {
+        "corr": ["CoreCorr", "CharCorr"],
+        "projection": "events, tree (full internal state), dom, bytes",
+        "level": "proof",
+        "explanation": "oracle on the implementation's output: Spec.infer (presence in all occurrences / max count per occurrence / any text, from the DOM) against the implementation's tree; reflects_b: parsed rendering mirrors the tree",
+        "assumptions": DOC_ASSUME,
+    },
+    "C04": {
+        "corr": ["CoreCorr", "CharCorr"],
+        "projection": "tree, bytes",
+        "level": "proof",
+        "explanation": "oracle on the implementation's output: wf_b on the parsed rendering (unique legal struct names, unique legal identifiers, types defined and used once); reflects_b",
+        "assumptions": DOC_ASSUME,
+    },
+    "C09": {
+        "corr": ["CoreCorr", "CharCorr"],
+        "projection": "events, tree, dom, bytes",
+        "level": "proof",
+        "explanation": "oracle on the implementation's output: first-appearance order via Spec.infer (attribute order and positions), reflects_b in output order (sorted by XML name under XmlName), only_order_b between the two renderings",
+        "assumptions": DOC_ASSUME,
+    },
+    "C10": {
+        "corr": ["CoreCorr", "CharCorr"],
+        "projection": "tree, bytes",
+        "level": "proof",
+        "explanation": "oracle on the implementation's output: derive_b, erased_eqb (structs/fields/identifiers/types/order independent of prefix, text identifier, derive, preset), rename-iff inside reflects_b",
+        "assumptions": DOC_ASSUME,
+    },
+    "C14": {
+        "corr": ["CoreCorr", "CharCorr"],
+        "projection": "tree, bytes",
+        "level": "proof",
+        "explanation": "oracle on the implementation's output: names_b: every struct name = PascalCase of the nearest ancestors' names ++ own ++ digits, unqualified when the PascalCase name is unique in the tree, first struct = root",
+        "assumptions": DOC_ASSUME,
     },
 }
